@@ -52,6 +52,13 @@ func vRun(op string, in M) M {
 		if e2 == nil && p2 == "" {
 			out["unmarshal"] = pathOut(u)
 		}
+		// the caller owns the returned paths: it overwrites them (a later parse of the same text must not care)
+		for i := range p {
+			p[i] ^= 0x5c5c5c5c
+		}
+		for i := range u {
+			u[i] ^= 0x5c5c5c5c
+		}
 		return out
 	case "path.String":
 		p := pathIn(in["path"])
@@ -59,12 +66,17 @@ func vRun(op string, in M) M {
 		var mt []byte
 		pn := vCatch(func() { s = p.String(); mt, _ = p.MarshalText() })
 		out := M{"str": vInts([]byte(s)), "marshal": vInts(mt), "panic": pn, "reparse_ok": false, "reparse": [][]int{}}
+		vKeepStr("Path.String result", s)
+		vOwnOrKeep("Path.MarshalText result", mt)
 		var q Path
 		var err error
 		p2 := vCatch(func() { q, err = ParsePath(s) })
 		out["reparse_ok"] = err == nil && p2 == ""
 		if err == nil && p2 == "" {
 			out["reparse"] = pathOut(q)
+		}
+		for i := range q {
+			q[i] ^= 0x5c5c5c5c
 		}
 		return out
 	}
